@@ -190,28 +190,20 @@ def run(chk):
             coeff = n.value
     if coeff is None:
         raise AnalysisError("TaylorExpansion.__init__: assignment to self.coeff not found")
-    comp = None
-    for n in ast.walk(coeff):
-        if isinstance(n, ast.ListComp):
-            comp = n
-    if comp is None or len(comp.generators) != 1 or comp.generators[0].ifs:
-        raise AnalysisError("TaylorExpansion.coeff is not a single unconditional list comprehension")
-    gen = comp.generators[0]
-    rng = unparse(gen.iter).replace(" ", "")
-    chk.ob("taylor", "range", rng == "range(self.order+1)", te.where, rng, "range(self.order+1)", line=coeff.lineno)
-    if not isinstance(gen.target, ast.Name):
-        raise AnalysisError("TaylorExpansion comprehension target is not a name")
+    # evaluated with numpy's array semantics (int64 arithmetic wraps, true division gives floats) for order = 24
+    from ..fold import npfold, NArr
     from math import factorial
-    bad = []
-    for k in range(0, 25):
-        try:
-            v = fold(comp.elt, {gen.target.id: F(k)})
-        except NotConstant as e:
-            raise AnalysisError(f"TaylorExpansion coefficient expression not foldable: {e}")
-        if v != F(1, factorial(k)):
-            bad.append((k, str(v)))
-    chk.ob("taylor", "coefficients", not bad, te.where, bad[:4] or "1/k! for k=0..24", "1/k!", line=coeff.lineno,
-           detail="Taylor propagator coefficient differs from 1/k!" if bad else "")
+    ORDER = 24
+    try:
+        arr = npfold(coeff, {"self.order": ("int", ORDER), "order": ("int", ORDER)})
+    except NotConstant as e:
+        raise AnalysisError(f"TaylorExpansion coefficient expression not foldable: {e}")
+    vals = arr.vals if isinstance(arr, NArr) else None
+    chk.ob("taylor", "range", vals is not None and len(vals) == ORDER + 1, te.where, len(vals) if vals is not None else repr(arr), f"{ORDER + 1} coefficients for order {ORDER}", line=coeff.lineno,
+           detail="the expansion of order n needs the coefficients of H^0 .. H^n")
+    bad = [(k, str(v)) for k, v in enumerate(vals or []) if F(v) != F(1, factorial(k))]
+    chk.ob("taylor", "coefficients", vals is not None and not bad, te.where, bad[:4] or f"1/k! for k=0..{ORDER}", "1/k!", line=coeff.lineno,
+           detail="Taylor propagator coefficient differs from 1/k! (evaluated with numpy's fixed-width integer semantics: a product of int64 values wraps around silently from 21! on)" if bad else "")
 
     # ------------------------------------------------ layout producer / consumers
     ret = [n for n in ast.walk(gt.node) if isinstance(n, ast.Return)]
